@@ -195,7 +195,9 @@ impl Monitor for C08 {
 					3 => crate::iofault::Policy::Random(300, rng.next()),
 					_ => crate::iofault::Policy::Fixed(7),
 				};
-				match common::slp_read_src(Src::new(std::sync::Arc::new(modified.clone()), sched.clone()), false, false) {
+				let want_hash = format!("xxh3:{:016x}", xxhash_rust::xxh3::xxh3_64(&modified));
+				match common::slp_read_src(Src::new(std::sync::Arc::new(modified.clone()), sched.clone()), false, true) {
+					Ok(g) if g.hash.as_deref() != Some(&want_hash[..]) => out.violate("unknown-event-hash", format!("{} (schedule {:?}): hash {:?}, digest of the file is {}", what, sched, g.hash, want_hash), Some(&modified)),
 					Ok(g) => match snap_diff(&base, &snapshot(&g)) {
 						None => out.count("identical_games", 1),
 						Some(d) => out.violate(format!("unknown-event-disturbs;{}", d.split_whitespace().next().unwrap_or("")), format!("{}: parsed game differs in {}", what, d), Some(&modified)),
